@@ -74,7 +74,7 @@ pub fn dispatch(op: &str, backend: &str, args: &Value) -> Value {
 
 const TRAIT_FORMS: [&str; 7] = ["strict.source", "strict.target", "strict.identity", "strict.spider", "lax.identity", "lax.spider", "lax.tensor"];
 
-const DERIVED: [(&str, &str); 10] = [
+const DERIVED: [(&str, &str); 9] = [
     ("ff.source", "ff.clone"),
     ("sf.len", "sf.clone"),
     ("sf.coproduct", "sf.eq"),
@@ -84,7 +84,6 @@ const DERIVED: [(&str, &str); 10] = [
     ("ic.coproduct_sf", "ic.eq_sf"),
     ("hyper.is_discrete", "hyper.clone"),
     ("strict.source", "strict.clone"),
-    ("arrow.is_monomorphism", "arrow.clone"),
 ];
 
 fn cmd_exec() {
